@@ -142,7 +142,7 @@ def jsonargparse_frames(ex):
     return out
 
 
-def run_op(fn, stdin=None):
+def run_op(fn, stdin=None, stdout=None):
     """Execute one operation with captured streams.  `stdin`: None (empty), str, or {'closed':True} / {'none':True}."""
     from jsonargparse import ArgumentError
 
@@ -159,6 +159,12 @@ def run_op(fn, stdin=None):
     else:
         sys.stdin = io.StringIO(stdin or "")
     sys.stdout, sys.stderr = out, err
+    if isinstance(stdout, dict) and stdout.get("none"):
+        sys.stdout = None  # process started with stdout closed (prog >&-, daemon, pythonw)
+    elif isinstance(stdout, dict) and stdout.get("closed"):
+        c = io.StringIO()
+        c.close()
+        sys.stdout = c
     try:
         with warnings.catch_warnings():
             warnings.simplefilter("ignore")
